@@ -13,6 +13,8 @@ import gc
 import json
 import os
 import random
+import re
+import shutil
 import signal
 import subprocess
 import sys
@@ -22,7 +24,7 @@ HERE = os.path.dirname(os.path.abspath(__file__))
 sys.path.insert(0, HERE)
 import refmodel  # noqa: E402
 
-STAGES = ["py.kmers", "py.min", "py.oligo", "py.header", "py.cgr", "py.batch", "py.lifetime", "py.acgt", "py.large", "py.models"]
+STAGES = ["py.kmers", "py.min", "py.oligo", "py.header", "py.cgr", "py.batch", "py.lifetime", "py.acgt", "py.large", "py.models", "py.vg"]
 
 
 # ------------------------------------------------------------------------------------------------
@@ -441,10 +443,10 @@ def child_cgr(pk, rng, n, R, ktmon, work):
             R.sample({"seq": short(s), "S": S, "points": len(got)})
 
 
-def child_batch(pk, rng, n, R, ktmon, work):
+def child_batch(pk, rng, n, R, ktmon, work, sizes=None):
     threads = os.environ.get("RAYON_NUM_THREADS", "default")
     R.extra["rayon_num_threads"] = threads
-    for size in ([0, 1, 2, 7, 1000, 5000] if n >= 6 else [0, 1, 2, 7, 1000]):
+    for size in (sizes if sizes is not None else [0, 1, 2, 7, 1000, 5000] if n >= 6 else [0, 1, 2, 7, 1000]):
         k = rng.randint(1, 5)
         norm = rng.random() < 0.5
         seqs = [gen_string(rng, 60)[1] for _ in range(size)]
@@ -552,6 +554,17 @@ def child_lifetime(pk, rng, n, R, ktmon, work):
             continue
         if i % 50 == 0:
             R.sample({"seq": short(s0, 60), "k": k, "w": w, "m": m, "kmers": len(exp_k), "runs": len(exp_m)})
+
+
+def child_vg(pk, rng, n, R, ktmon, work):
+    """The interpreter of this child runs under valgrind memcheck (see main): the functional monitors run as usual,
+    the parent additionally reads the memcheck log and reports every invalid access with a frame inside the
+    extension module.  Workload: iterators outliving their source string, every per-sequence entry point, small
+    batches on the rayon pool."""
+    child_lifetime(pk, rng, n, R, ktmon, work)
+    child_oligo(pk, rng, max(4, n // 3), R, ktmon, work)
+    child_cgr(pk, rng, max(4, n // 3), R, ktmon, work)
+    child_batch(pk, rng, 0, R, ktmon, work, sizes=[0, 1, 7, 40])
 
 
 def child_large(pk, rng, n, R, ktmon, work):
@@ -673,7 +686,7 @@ def child_models(pk, rng, n, R, ktmon, work):
 
 CHILDREN = {"py.kmers": child_kmers, "py.min": child_min, "py.oligo": child_oligo, "py.header": child_header,
             "py.cgr": child_cgr, "py.batch": child_batch, "py.lifetime": child_lifetime, "py.acgt": child_acgt, "py.large": child_large,
-            "py.models": child_models}
+            "py.models": child_models, "py.vg": child_vg}
 
 # (groups, cases per group) per tier
 SIZES = {
@@ -687,7 +700,70 @@ SIZES = {
     "py.acgt": {"quick": (1, 400), "thorough": (2, 5000)},
     "py.large": {"quick": (1, 1), "thorough": (2, 2)},
     "py.models": {"quick": (2, 600), "thorough": (8, 4000)},
+    "py.vg": {"quick": (2, 12), "thorough": (12, 120)},
 }
+
+
+VG_KINDS = ("Invalid read", "Invalid write", "Invalid free", "Mismatched free", "Source and destination overlap",
+            "Jump to the invalid address", "Process terminating")
+
+
+def parse_memcheck(path, module="pykmertools"):
+    """memcheck log -> (reports attributable to the extension module, number of other reports).
+    A report counts against the module when one of its stack frames lies in the module's shared object.  Only
+    addressability errors are verdicts; 'uninitialised value' reports are counted separately (CPython itself
+    produces them even with PYTHONMALLOC=malloc, and memcheck can mis-flag optimised code), never as violations."""
+    try:
+        text = open(path, errors="replace").read()
+    except OSError:
+        return None
+    blocks, cur = [], []
+    for line in text.splitlines():
+        body = re.sub(r"^==\d+== ?", "", line)
+        if body.strip() == "":
+            if cur:
+                blocks.append(cur)
+            cur = []
+        else:
+            cur.append(body)
+    if cur:
+        blocks.append(cur)
+    mine, uninit_mine, other = [], 0, 0
+    # a report = a block starting with an error kind, possibly followed by an "Address ... is ... inside a block" block
+    i = 0
+    while i < len(blocks):
+        b = blocks[i]
+        head = b[0]
+        is_err = any(head.startswith(k) for k in VG_KINDS) or "uninitialised" in head
+        if not is_err:
+            i += 1
+            continue
+        frames = [l for l in b[1:] if l.lstrip().startswith(("at 0x", "by 0x"))]
+        extra = [l for l in b[1:] if l.lstrip().startswith("Address 0x")]
+        if not extra and i + 1 < len(blocks) and blocks[i + 1][0].lstrip().startswith("Address 0x"):
+            extra = blocks[i + 1]
+            i += 1
+        i += 1
+        if extra:
+            k = b.index(extra[0]) if extra[0] in b else len(b)
+            frames = [l for l in b[1:k] if l.lstrip().startswith(("at 0x", "by 0x"))]
+        # attribution: the access stack, or (for a freed / foreign block) the stack that allocated or released it
+        in_module = [f for f in frames if module in f] or [l for l in b[1:] + (extra if extra and extra[0] not in b else []) if l.lstrip().startswith(("at 0x", "by 0x")) and module in l]
+        if head.startswith("Process terminating"):
+            continue
+        if not in_module:
+            other += 1
+            continue
+        if "uninitialised" in head:
+            uninit_mine += 1
+            continue
+        fn = re.sub(r"^\s*(at|by) 0x[0-9A-Fa-f]+: ", "", in_module[0])
+        fn = re.sub(r" \(in .*\)$", "", fn)
+        fn = re.sub(r"::h[0-9a-f]{16}$", "", fn)
+        mine.append({"kind": " ".join(head.split()[:2]), "head": head, "frame": fn, "address": extra[0].strip() if extra else "",
+                     "stack": [f.strip() for f in frames[:8]]})
+    return mine, uninit_mine, other
+
 
 
 def run_child(args):
@@ -724,12 +800,27 @@ def main():
     merged = Result(stage)
     t0 = time.time()
     procs = []
+    under_vg = stage == "py.vg"
+    vg_logs = {}
+    if under_vg and not shutil.which("valgrind"):
+        merged.inconclusive += 1
+        merged.inconclusive_notes.append("valgrind not installed")
+        groups = 0
     for g in range(groups):
         out = os.path.join(opts["--work"], "pychild-%s-%d-%d.json" % (stage, g, os.getpid()))
         env = dict(os.environ)
         env["RAYON_NUM_THREADS"] = ["1", "2", "16", "5"][g % 4]
         env["PYTHONHASHSEED"] = "0"
-        p = subprocess.Popen([sys.executable, os.path.abspath(__file__), "--child", stage, str(g), str(seed), tier, opts["--moddir"], opts["--ktmon"], out, opts["--work"]],
+        prefix = []
+        if under_vg:
+            # the interpreter proper (valgrind does not follow the exec of a wrapper script); malloc-backed objects so
+            # that memcheck sees every Python-level release
+            env["PYTHONMALLOC"] = "malloc"
+            env["RAYON_NUM_THREADS"] = ["2", "1", "3", "5"][g % 4]
+            vg_logs[g] = os.path.join(opts["--work"], "memcheck-%d-%d.log" % (g, os.getpid()))
+            prefix = ["valgrind", "--tool=memcheck", "--error-exitcode=0", "--leak-check=no", "--num-callers=30", "--error-limit=no",
+                      "--log-file=" + vg_logs[g]]
+        p = subprocess.Popen(prefix + [sys.executable, os.path.abspath(__file__), "--child", stage, str(g), str(seed), tier, opts["--moddir"], opts["--ktmon"], out, opts["--work"]],
                              env=env, stdout=subprocess.PIPE, stderr=subprocess.PIPE)
         procs.append((g, p, out, env["RAYON_NUM_THREADS"]))
         # at most 8 children at a time
@@ -745,6 +836,24 @@ def main():
             merged.inconclusive_notes.append("child %d of %s: watchdog" % (g, stage))
             continue
         rc = p.returncode
+        if under_vg:
+            parsed = parse_memcheck(vg_logs[g])
+            if parsed is None:
+                merged.inconclusive += 1
+                merged.inconclusive_notes.append("child %d: no memcheck log" % g)
+            else:
+                mine, uninit_mine, other = parsed
+                merged.extra["memcheck_logs_read"] = merged.extra.get("memcheck_logs_read", 0) + 1
+                merged.extra["memcheck_reports_outside_module_ignored"] = merged.extra.get("memcheck_reports_outside_module_ignored", 0) + other
+                merged.extra["memcheck_uninitialised_in_module_not_judged"] = merged.extra.get("memcheck_uninitialised_in_module_not_judged", 0) + uninit_mine
+                for rep in mine:
+                    merged.violate("py.memcheck:%s:%s" % (rep["kind"], rep["frame"][:80]),
+                                   "valgrind memcheck: %s in the extension module (%s) %s" % (rep["head"], rep["frame"], rep["address"]),
+                                   {"stage": stage, "group": g, "seed": seed, "tier": tier, "rayon_threads": threads, "stack": rep["stack"]})
+            try:
+                os.remove(vg_logs[g])
+            except OSError:
+                pass
         if rc != 0 or not os.path.exists(out):
             tail = se.decode("utf-8", "replace")[-800:]
             if rc < 0 or "panicked" in tail or "Fatal Python error" in tail:
